@@ -62,6 +62,15 @@ CHECKS = {
              'closed-loop part explores generated histories (deletions racing open cycles, released objects at first sight, '
              'restarts) - bounded exploration.',
         design_ref='5/C05'),
+    'C07': dict(
+        technique='property-based testing with harness-owned delivery timing: Hypothesis-generated watch-latency schedules around the '
+                  'consistency timeout (+-1e-6 s), API latencies and bursts of foreign edits between a PATCH and its echo, in the closed '
+                  'loop; oracle = history invariant relating each change-handler view to the versions returned by the incarnation\'s '
+                  'earlier PATCHes, plus witnesses (on.event, index, timer) that must not be delayed',
+        text='For every change-handler invocation the check looks for an earlier own PATCH of the same object whose returned version is '
+             'newer than the view and younger than the consistency timeout; conversely raw-event and index handlers must run at the '
+             'delivery instants (in the sub-domain where nothing else can delay them) and timers keep their interval. Bounded exploration.',
+        design_ref='5/C07'),
     'C15': dict(
         technique='bounded-exhaustive enumeration (itertools.product over a criteria alphabet, sampled in quick, complete in thorough) '
                   'of handler declarations x object states x causes through the public decorators, differential against an executable '
